@@ -215,8 +215,28 @@ def scenarios(tier):
     return tunnel_scenarios(tier) + http_scenarios(tier) + big_scenarios(tier)
 
 
+def thorough_scenarios():
+    """d <= 2 on the quick corpus (d <= 3 on its smallest members), d <= 1 on the corpus with every
+    single cut of every stream, plus the 3 MiB transfer."""
+    base = scenarios('quick')
+    names = set()
+    out = []
+    for s in base:
+        names.add(s.name)
+        if '_bound' not in s.features:
+            small = s.features['flags'] == 'default' and len(s.features.get('_expect_c', b'')) <= 50
+            s.features['_bound'] = 3 if small and s.features.get('role') == 'tunnel' and \
+                len(s.features.get('c2u', b'')) + len(s.features.get('u2c', b'')) <= 2 else 2
+        out.append(s)
+    for s in scenarios('thorough'):
+        if s.name not in names:
+            s.features.setdefault('_bound', 1)
+            out.append(s)
+    return out
+
+
 def run(tier):
-    scns = scenarios(tier)
+    scns = scenarios(tier) if tier == 'quick' else thorough_scenarios()
     bound = 1 if tier == 'quick' else 2
     return netcheck.run(PROP, tier, scns, check, bound, None,
                         assumptions=['payload alphabet and sizes as listed in DESIGN.md C01; TLS-wrapped sends '
@@ -225,5 +245,4 @@ def run(tier):
 
 def replay(path):
     import json
-    tier = 'thorough'
-    return netcheck.replay(path, scenarios(tier), check)
+    return netcheck.replay(path, thorough_scenarios(), check)
